@@ -84,6 +84,21 @@ func (br *baseRegistry) StoreOrSwap(typ reflect.Type, tag string, c plenccodec.C
 	return cv.(plenccodec.Codec)
 }
 
+// isRepeatedForm reports whether c writes a value as a sequence of tagged
+// elements (the protobuf repeated field form) rather than as a single element
+func isRepeatedForm(c plenccodec.Codec) bool {
+	for {
+		switch cc := c.(type) {
+		case plenccodec.ProtoSliceWrapper:
+			return true
+		case plenccodec.PointerWrapper:
+			c = cc.Underlying
+		default:
+			return false
+		}
+	}
+}
+
 // CodecForType finds an existing codec for a type or constructs a codec. It
 // calls CodecForTypeRegistry using the internal registry on p
 func (p *Plenc) CodecForType(typ reflect.Type) (plenccodec.Codec, error) {
@@ -146,6 +161,11 @@ func (p *Plenc) CodecForTypeRegistry(registry plenccodec.CodecRegistry, typ refl
 			}
 			c = plenccodec.WTFixedSliceWrapper{BaseSliceWrapper: bs}
 		case plenccore.WTLength:
+			if isRepeatedForm(subc) {
+				// The element is itself written as a repeated field. There's
+				// no way to tell where one element ends and the next begins
+				return nil, fmt.Errorf("slices of slices of structs or strings are not supported")
+			}
 			if p.ProtoCompatibleArrays || tag == "proto" {
 				// When writing we just want to repeat the encoding of an
 				// individual element within the slice as if it was a separate
